@@ -53,6 +53,7 @@ def _case(draw):
         "seed": draw(st.integers(0, 10**6)),
         # history: the same flow object may have been fitted before on data of another scale
         "prefit": draw(st.sampled_from([None, None, 0.2, 3.0])),
+        "bounds_reversed": draw(st.booleans()),
     }
 
 
@@ -191,10 +192,13 @@ def _build(case):
 
     backend = case["backend"]
     d = case["d"]
-    params = [f"p{i}" for i in range(d)]
+    # names that are not in alphabetical order; the bounds mapping may list them in another order than `parameters`
+    params = ["zeta", "alpha"][:d]
     lo = np.array(case["lower"], dtype=float)
     hi = lo + np.array(case["w"], dtype=float)
     bounds = {p: [float(lo[i]), float(hi[i])] for i, p in enumerate(params)} if case["bounded"] else None
+    if bounds and case.get("bounds_reversed"):
+        bounds = dict(reversed(list(bounds.items())))
     kw = {}
     if backend == "zuko":
         kw["seed"] = case["seed"]
